@@ -40,6 +40,9 @@ def config(typ, variant="std"):
         return tuple(("t%d" % i, typ, (None if i % 3 == 0 else 2), None) for i in range(12))
     if variant == "latin":   # ISO-8859-1 names: two names that differ only by sharp-s vs 'ss' are different tags; case-insensitive otherwise
         return (("Ma\xdf", typ, 2, None), ("Mass", typ, 2, None), ("\xd6l", typ, None, None), ("b", typ, 1, "0x401/1/1"))
+    if variant == "mixed":   # tags of DIFFERENT element types in one simulator (anything cached across tags/types shows up here)
+        return (("i", "INT", 2, None), ("u", "UINT", 2, None), ("d", "DINT", 2, None), ("f", "REAL", 2, None), ("l", "LINT", 2, None),
+                ("c", "SINT", 2, None))
     if variant == "alias":   # two names for one attribute, a 16-bit instance id, a tag name with a dot
         return (("a", typ, 2, None), ("b", typ, 2, "0x401/300/1"), ("b2", typ, 2, "0x401/300/1"), ("x.y", typ, None, None))
     raise ValueError(variant)
